@@ -234,6 +234,18 @@ class ObjRun(object):
             self.fresh = False
             self.events.append({"ev": "Set", "what": "ranges"})
 
+    def remove_box(self, s, how):
+        """ranges switched off mid-run: SetStrictRanges(False) removes them, SetStrictRanges(None) falls back to the
+        solver's default box (+-1e3); either way the box in force changes between iterations"""
+        if how == "off":
+            s.SetStrictRanges(False)
+            self.box = None
+        else:
+            s.SetStrictRanges(None)
+            self.box = ([-1e3] * self.dim, [1e3] * self.dim)
+        self.fresh = False
+        self.events.append({"ev": "Set", "what": "ranges"})
+
     def install_cons(self, s, midrun, kw=None):
         """install through SetConstraints, or (kw given) through the `constraints=` keyword of the next Step"""
         if self.cons_pristine is None:
@@ -316,7 +328,7 @@ class ObjRun(object):
         if kind in ("DE", "DE2") and cfg.get("strategy"):
             s.strategy = cfg["strategy"]
         at = {"box": cfg.get("box_at", 0), "cons": cfg.get("cons_at", 0), "pen": cfg.get("pen_at", 0)}
-        rfs = cfg["box"] != "none" and at["box"] == 0
+        rfs = cfg["box"] != "none" and at["box"] == 0 and cfg.get("box_off_at") is None
         cfs = cfg["cons"] != "none" and self.cons_pristine is not None and at["cons"] == 0
         self.events.append({"ev": "New", "kind": kind, "rfs": bool(rfs), "cfs": bool(cfs),
                             "randomclip": cfg.get("clip") is False, "members": True, "cfg": cfg, "seed": self.seed})
@@ -326,6 +338,11 @@ class ObjRun(object):
             via_step = cfg.get("via") == "step" and k < steps
             if at["box"] == k:
                 self.install_box(s, k > 0)
+            if cfg.get("box_off_at") is not None and cfg["box"] != "none":
+                if k == cfg["box_off_at"] and k > at["box"]:
+                    self.remove_box(s, cfg.get("box_off_how", "off"))
+                if k == cfg["box_off_at"] + 2 and k > at["box"] and k < steps:
+                    self.install_box(s, True)          # ... and back on two steps later
             if at["cons"] == k:
                 self.install_cons(s, k > 0, kw if via_step else None)
             if at["pen"] == k:
